@@ -12,7 +12,7 @@ use common::*;
 // One global finite script of events; each stub consumes the next event and interprets it for its own role.
 // When the script is exhausted every stub answers Pending (DESIGN P16: an unbounded nondeterministic stub lets
 // a single poll_ready spin forever, which is not a behaviour of any real connector).
-const MAXK: usize = 6;
+const MAXK: usize = 12;
 static mut SCRIPT: [u8; MAXK] = [0; MAXK];
 static mut LEN: usize = 0;
 static mut POS: usize = 0;
@@ -306,6 +306,24 @@ fn rc_step_k4() {
 #[kani::stub(alloc::fmt::format, fmt_stub)]
 fn rc_step_k5() {
     step::<5>()
+}
+#[kani::proof]
+#[kani::unwind(8)]
+#[kani::stub(alloc::fmt::format, fmt_stub)]
+fn rc_step_k6() {
+    step::<6>()
+}
+#[kani::proof]
+#[kani::unwind(10)]
+#[kani::stub(alloc::fmt::format, fmt_stub)]
+fn rc_step_k8() {
+    step::<8>()
+}
+#[kani::proof]
+#[kani::unwind(14)]
+#[kani::stub(alloc::fmt::format, fmt_stub)]
+fn rc_step_k12() {
+    step::<12>()
 }
 
 // ---- deliberately false twin (thorough tier) ---------------------------------------------------------------------------
